@@ -7,6 +7,7 @@ SA   admission: every exit of a predicate that admits (cell,row) is edge-dominat
 AC   commit: a cell is committed to a row only when the admission predicate said ok for that cell and row
 G7   every store into an orientation state takes its value from the orientation function of the row the
      cell's y is set to in the same commit
+KO   cells without polarity keep the orientation they had on input
 R2   the consistency checker rejects INVALID
 """
 import json
@@ -55,6 +56,7 @@ def run(ctx, rep, tier):
     rep.rule("SA", "every admitting exit of an admission predicate is dominated by orientation compatibility of that (cell,row)", 7)
     rep.rule("AC", "legalizer commits only candidates the admission predicate accepted; candidate variables assigned together", 2)
     rep.rule("G7", "orientation stores come from the orientation function of the row whose y is stored with them", 4)
+    rep.rule("KO", "cells without polarity keep their input orientation", 3)
     rep.rule("R2", "DetailedPlacement::check rejects INVALID", 1)
     check_tables(ctx, rep, spec)
     for q, pairs in PREDICATES.items():
@@ -62,6 +64,7 @@ def run(ctx, rep, tier):
     check_region_choice(ctx, rep)
     check_commits(ctx, rep, "AC")
     check_g7(ctx, rep)
+    check_keep(ctx, rep)
     check_r2(ctx, rep)
 
 
@@ -287,9 +290,16 @@ def check_region_choice(ctx, rep):
 
 def same_block(g, a, b):
     """Two CFG nodes execute together: same set of dominating edges and each reaches the other without a branch."""
-    ea = {(id(x), v) for x, v, _e in g.dom_edges(a)}
-    eb = {(id(x), v) for x, v, _e in g.dom_edges(b)}
-    return ea == eb
+    if a is None or b is None:
+        return False
+    if a is b:
+        return True
+    # control equivalence: one dominates the other and is post-dominated by it
+    if g.dominates(a, b) and g.postdominates(b, a):
+        return True
+    if g.dominates(b, a) and g.postdominates(a, b):
+        return True
+    return False
 
 
 def check_commits(ctx, rep, rid):
@@ -513,10 +523,86 @@ def check_g7(ctx, rep):
                 else:
                     rep.violation("G7", x, owner, what, "orientation comes from row %s but the stored y is %s" % (row, yp),
                                   key="%s|orientation row differs from y row" % owner.short)
+            elif val[0] == "var" and ystores and canon(ystores[0][0])[3][0] == "var":
+                # candidate variables: the orientation candidate must be assigned together with the y candidate, from the
+                # orientation function of the row of that y
+                ov, yv = val, canon(ystores[0][0])[3]
+                top = owner.outer
+                oas = assignments_to(top, ov[1])
+                yas = assignments_to(top, yv[1])
+                if not oas or not yas:
+                    rep.unknown("G7", x, owner, what, "candidate variables are never assigned")
+                    continue
+                problems = []
+                for ax, ar in oas:
+                    lf = ctx.eff.func_of_node(ax)
+                    gl = cfg_of(lf)
+                    mates = [(bx, br) for bx, br in yas if ctx.eff.func_of_node(bx) is lf and same_block(gl, gl.node_for(ax), gl.node_for(bx))]
+                    if not mates:
+                        problems.append("orientation candidate assigned at %s separately from the y candidate: it can describe a different row than the one kept" % loc_str(ax))
+                        continue
+                    oc = expand_locals(ctx, lf, canon(ar))
+                    yc = canon(mates[0][1])
+                    pair = orient_call_pair(oc) if oc[0] == "call" and oc[1] in ORIENT_FUNCS else None
+                    if pair is None or pair[1] != "LegalizerBase::closestRow(%s)" % pretty(yc):
+                        problems.append("orientation candidate %s is not the orientation of the row of the y candidate %s" % (pretty(oc)[:60], pretty(yc)))
+                if problems:
+                    rep.violation("G7", x, owner, what, "; ".join(problems[:2]), key="%s|orientation candidate out of step with the position" % owner.short)
+                else:
+                    rep.holds("G7", x, owner, what, "orientation candidate assigned together with the y candidate, from the row of that y")
             elif val[0] == "index" and ystores and ystores[0][1][0] == "index" and val[2] == expand_locals(ctx, owner, ystores[0][1])[2]:
                 rep.holds("G7", x, owner, what, "copied together with y from the same source index (sub-legalizer result)")
             else:
                 rep.unknown("G7", x, owner, what, "orientation value is not the orientation function of a row nor a paired copy")
+
+
+# ---- KO ------------------------------------------------------------------------------
+
+def check_keep(ctx, rep):
+    """Cells without polarity keep the orientation they had: getOrientation returns the *input* orientation when the
+    polarity function says UNKNOWN, the input orientations are only ever copied from the constructor argument, and the result
+    orientations start as a copy of the input."""
+    prog, eff = ctx.prog, ctx.eff
+    f = prog.func1(CQ + "LegalizerBase::getOrientation")
+    g = cfg_of(f)
+    cellp = f.params[0]
+    want = ("index", ("field", CQ + "LegalizerBase::cellTargetOrientation_", ("this",)), ("var", cellp.get("id"), cellp.get("name")))
+    kept = None
+    for x in walk(f.body):
+        if x.get("kind") == "ReturnStmt" and children(x):
+            guards = ctx.guards(f, x) or []
+            unk = any(expand_locals(ctx, f, gc)[0] == "bin" and gc[1] == "==" and gc[3] == UNKNOWN_O and val is True for gc, val, _a, _b in guards)
+            if unk:
+                kept = (x, canon(children(x)[0]))
+    if kept is None:
+        rep.unknown("KO", f.decl, f, "getOrientation", "no return under `== UNKNOWN` found")
+    elif kept[1] == want:
+        rep.holds("KO", kept[0], f, "without polarity getOrientation returns the cell's input orientation cellTargetOrientation_[cell]")
+    else:
+        rep.violation("KO", kept[0], f, "without polarity getOrientation returns %s" % pretty(kept[1]),
+                      "cells without polarity must keep the orientation they had on input (cellTargetOrientation_[cell])",
+                      key="LegalizerBase::getOrientation|kept orientation is not the input orientation")
+    ws = [(ff, x, u) for ff, x, u in field_writes_local(ctx, CQ + "LegalizerBase::cellTargetOrientation_")]
+    bad = [(ff, u) for ff, x, u in ws if not (ff.kind == "CXXConstructorDecl" and ff.cls == CQ + "LegalizerBase")]
+    if bad:
+        rep.violation("KO", bad[0][1].node, bad[0][0], "input orientations modified after construction", bad[0][1].why,
+                      key="%s|writes cellTargetOrientation_" % bad[0][0].short)
+    else:
+        rep.holds("KO", "-", None, "cellTargetOrientation_ is written only by the LegalizerBase constructor")
+    ctor = [c for c in prog.func(CQ + "LegalizerBase::LegalizerBase")]
+    for c in ctor:
+        init = [x for x in walk(c.body) if x.get("kind") in ("CXXOperatorCallExpr", "BinaryOperator") and _store_target(canon(x)) == ("field", CQ + "LegalizerBase::cellToOrientation_", ("this",))]
+        others = [u for x, u in eff.summary(c)["writes"].get(CQ + "LegalizerBase::cellToOrientation_", []) if u.why not in ("operator=", "constructor initialiser")]
+        if init and canon(init[0])[3] == ("field", CQ + "LegalizerBase::cellTargetOrientation_", ("this",)) and not others:
+            rep.holds("KO", init[0], c, "result orientations start as a copy of the input orientations")
+        else:
+            rep.violation("KO", (init or [c.decl])[0], c, "result orientations are not initialised from the input orientations",
+                          "a cell that no rule re-orients would not keep its orientation", key="LegalizerBase::LegalizerBase|orientation init")
+
+
+def field_writes_local(ctx, q):
+    from .common import field_writes
+    return field_writes(ctx, q)
 
 
 # ---- R2 ------------------------------------------------------------------------------
